@@ -1,9 +1,7 @@
-import Driver.Util
-/-! Driver for C08: not built yet. -/
+import Driver.AdminCommon
+/-! Driver for C08: the shared administrative model + the C08 part of the oracle (see Driver/AdminCommon.lean). -/
 namespace Driver.C08
 
-def run : IO UInt32 := do
-  IO.eprintln "C08: driver not built yet"
-  return 2
+def run : IO UInt32 := Driver.Adm.run "C08"
 
 end Driver.C08
